@@ -304,12 +304,14 @@ def check(run, replay=None):
             scheds += [dict(s, epilogue="drain") for s in g]
             scheds += rand_scheds(rnd, rng, nrand, ["drain", "closewait"], weights=dict(send=4, close=1, recv=4, cancel=0, release=4, advance=0, burst=2))
             scheds += rand_scheds(pipeline_cfgs(rng, 200 if th else 40), rng, 3, ["drain", "closewait", "drain"], weights=dict(send=4, close=1, recv=4, cancel=0, release=0, advance=1, burst=1))
+            scheds += special_scheds(pid, th, rng)
         elif pid == "C06":
             for s in g:
                 scheds.append(dict(s, epilogue="cancel"))
             scheds += [dict(s, epilogue="closewait") for s in g if rng.random() < 0.25]
             scheds += rand_scheds(rnd + other_cfgs("C06", th, rng), rng, nrand, ["cancel", "closewait", "drain"])
             scheds += rand_scheds(pipeline_cfgs(rng, 200 if th else 40), rng, 3, ["cancel", "cancel", "closewait"])
+            scheds += special_scheds(pid, th, rng)
         elif pid == "C07":
             scheds += [dict(s, epilogue="drain") for s in g]
             scheds += rand_scheds(rnd + other_cfgs("C07", th, rng), rng, nrand, ["drain", "closewait"], weights=dict(send=4, close=1, recv=4, cancel=0, release=4, advance=1, burst=2))
@@ -550,6 +552,7 @@ def special_scheds(pid, th, rng):
     backlog draining to empty and refilling (C08)."""
     out = []
     S, R, A = (lambda i=0: {"c": "send", "i": i}), (lambda o="out": {"c": "recv", "o": o}), (lambda d: {"c": "advance", "d": d})
+    B = lambda *cs: {"c": "burst", "sub": list(cs)}
     if pid == "C13":
         for ops in [1, 2, 3]:
             for iv in [2, 3]:
@@ -576,6 +579,18 @@ def special_scheds(pid, th, rng):
                     cmds = [R("exx"), A(stall), R(), R("exx"), R(), A(1), R(), R("exx"), R(), A(freq), R(), R("exx")]
                     out.append({"cfg": C(kind="Emit", cap=cap, freq=freq, mode="try", fail=[1, 4]), "cmds": cmds, "epilogue": "cancel", "origin": "slow-consumer"})
     B = lambda *cs: {"c": "burst", "sub": list(cs)}
+    if pid in ("C05", "C06"):
+        # a late consumer: the producer pushes bursts of elements that all go to the same output while nobody receives, then the
+        # consumer drains (order and completeness must survive whatever the stage does with a full output)
+        for kind in ("Partition", "Filter", "Map", "FMap", "TakeWhile", "Take"):
+            for cap in (1, 2, 3):
+                n = 4 * cap + 2
+                vals = list(range(1, n + 1))
+                cfg = C(kind=kind, cap=cap, mode="pure", inputs=[vals], pred=vals[:-1], n=n - 1)
+                cmds = [B(*([S()] * cap)) for _ in range(4)] + [S(), S()]
+                for rep in range(2):
+                    out.append({"cfg": cfg, "cmds": cmds, "epilogue": "drain" if pid == "C05" else "cancel", "origin": "late-consumer"})
+                    out.append({"cfg": cfg, "cmds": cmds[:2] + [R()] + cmds[2:4] + [R(), R()], "epilogue": "drain", "origin": "late-consumer"})
     if pid == "C10":
         # workers held inside Combine while the rest of the input sits in the buffer and the input is closed; then every order of release
         rel = lambda x: {"c": "release", "x": x}
